@@ -580,7 +580,11 @@ func c12BasicExec(t *testing.T, c c12BasicCase) (o kit.Outcome) {
 				if r.uid != types.Uid(uid) || r.scheme != "basic" {
 					continue
 				}
-				switch op.PwVar {
+				kind := op.PwVar
+				if len(r.secret) < 8 {
+					kind = 0 // (already damaged: nothing left to cut)
+				}
+				switch kind {
 				case 0:
 					r.secret = nil
 				case 1:
